@@ -56,8 +56,11 @@ CLAIMED['C17'] = dict(
          'models wrapped before or after the number of individuals is set) are compared with each other and with the numbers '
          'and strings the specification renders (Agree, UniqueDefault, SubOrder model-checked by TLC over the whole bounded '
          'configuration space).',
-    note='same bounds as C02; reconfiguration histories beyond set_n_ids / fix are covered by other modules as they are built',
-    technique='TLA+ spec (PopLayout.tla) model-checked with TLC; spec->code replay comparing literal names and counts',
+    note='same bounds as C02; reconfiguration histories (module PopReconfig): TLC re-checks every PopLayout invariant after '
+         'every history of <=4 calls of set_n_ids / fix / release / set_dim_names / set_parameter_names on six compositions and '
+         'all 23 017 histories of 4 calls (thorough: random walks of 8) are replayed on the real objects; known finding F26',
+    technique='TLA+ specs (PopLayout.tla, PopReconfig.tla) model-checked with TLC; spec->code replay comparing literal names '
+              'and counts, incl. every exported reconfiguration history',
     design='6/C17')
 CLAIMED['C05'] = dict(
     engine='PopLeaf',
@@ -105,7 +108,9 @@ CLAIMED['C10'] = dict(
          'for every regimen x final time in the grid (the as-found loop is refuted) and bounds the delivered amount. Every '
          'case is replayed: table through PredictiveModel / PopulationPredictiveModel, delivery on an accumulator model '
          'dosed directly or through the depot (keyword regimen and explicit protocol), compared at every half time unit.',
-    note='RefSim + myokit.PacingSystem stand in for the native solver; integer grid of regimens; dataset-derived regimens: C14',
+    note='RefSim + myokit.PacingSystem stand in for the native solver; integer grid of regimens; dataset-derived regimens: C14; '
+         'delivery is replayed under one of five simulation modes per case (Dosing!Modes: plain, sensitivities, re-selected '
+         'sensitivities, reduced wrapper fixing with sensitivities on, sensitivities off again)',
     technique='TLA+ spec (Dosing.tla) model-checked with TLC; spec->code replay with exact table comparison and mass balance',
     design='6/C10')
 CLAIMED['C11'] = dict(
@@ -133,7 +138,8 @@ CLAIMED['C08'] = dict(
          '(value, pointwise, restricted sensitivities, seeded samples, simulation, copy) are compared with the unfixed '
          'object at the substituted vector.',
     note='3 names x 2 values (+ foreign key) replayed; 4 names x 3 values at specification level in the thorough tier; '
-         'the unfixed objects are the oracle',
+         'the unfixed objects are the oracle; half of the histories are "primed" (sensitivities on / a gradient evaluation before '
+         'the fixing history, gradient first afterwards); the all-parameters-fixed state is evaluated too',
     technique='TLA+ spec (FixParams.tla) model-checked with TLC; one implementation test per transition of the state graph',
     design='6/C08')
 CLAIMED['C16'] = dict(
@@ -146,7 +152,8 @@ CLAIMED['C16'] = dict(
          'and a Generator object; the recorded MakeGen / Draw / GlobalSeed / GlobalDraw events are validated by TLC against '
          'the trace specification, and the equal / different pattern of real results is compared for the histories the '
          'property names.',
-    note='provenance-based, no statistical test; primitives of NumPy / SciPy trusted; one call per entry point and seed kind',
+    note='provenance-based, no statistical test; primitives of NumPy / SciPy trusted; one call per entry point and seed kind '
+         '(an int, the int 0, a NumPy int, None, a Generator)',
     technique='TLA+ spec (RandomStreams.tla) model-checked with TLC; code->spec trace validation (Trace_RandomStreams.tla) of '
               'recorded generator events; equality-pattern replay with real generators',
     design='6/C16')
@@ -230,7 +237,8 @@ CLAIMED['C15'] = dict(
          'predictive draw uses one joint (chain, draw) row of the selected individual; population-predictive individuals are '
          'identified under scripted generators and checked by TLC with SampleAlgebra, the measurement stage numerically.',
     note='NumPy primitives trusted; stage-wise identification (the marginal law of a two-stage sampler is outside the algebra); '
-         'RefSim for regimen rows',
+         'RefSim for regimen rows; which posterior rows / member models are drawn is tested against Predictive!PosteriorLaw / '
+         'AveragedLaw with 1 200 seeded samples each (reachability of every row, chi-square / binomial at level 1e-9)',
     technique='TLA+ specs (Predictive.tla, SampleAlgebra.tla) with TLC; spec->code replay of every request; code->spec check of '
               'recorded sampler calls',
     design='6/C15')
@@ -255,7 +263,9 @@ CLAIMED['C19'] = dict(
          'of real objects (likelihoods, posteriors, hierarchical and filter posteriors, predictive models) against freshly '
          'built objects, with user mutations, input comparison, forked workers and pints.ParallelEvaluator; the recorded '
          'solver traces are validated against Trace_MechModel.',
-    note='RefSim stands in for the solver; 2 objects per behaviour; results compared at rtol 1e-9 with a fresh object',
+    note='RefSim stands in for the solver; 2 objects per behaviour; results compared at rtol 1e-9 with a fresh object; the '
+         'specification also models who owns the fixed-parameter arrays of a reduced error model (EMIsolation; shallow copies '
+         'refuted by TLC): the user re-fixes the model he handed over, fix_parameters on one sibling object',
     technique='TLA+ spec (Purity.tla extending MechModel.tla) model-checked with TLC; spec->code replay of simulated '
               'interleavings; code->spec trace validation',
     design='6/C19')
